@@ -126,8 +126,8 @@ def header_mapping(ctx, rid, names):
             wkey = "HTTP_" + hn.replace("-", "_")
         # first occurrence, a repeated field, a repeated field whose earlier occurrence was empty
         for prior in (None, "u", ""):
-            if prior is not None and not wkey.startswith("HTTP_"):
-                continue
+            if prior is not None and wkey == "CONTENT_LENGTH":
+                continue            # (a repeated Content-Length never gets here: the parser refuses it)
             ex = Explorer(f, tracked=[ENV])
             outs = ex.run(loop, {HN: hn, HV: "v", ENV: ({} if prior is None else {wkey: prior})}, stop=lambda n: n is loop, start_label="true", probes=probes)
             got, locs = set(), set()
@@ -193,31 +193,38 @@ def r1(ctx):
     # PATH_INFO
     pi = [s for s in g.stmts(ast.Assign) if any(isinstance(t, ast.Subscript) and const(t.slice, NO) == "PATH_INFO" for t in s.ast.targets)]
     ctx.need(len(pi) == 1, "C15.R1: PATH_INFO store not found")
+    # evaluated: the SCRIPT_NAME / PATH_INFO split. SCRIPT_NAME is a prefix of path *segments* (RFC 3875: PATH_INFO is empty or
+    # starts with '/'): a sibling path that merely shares its first characters is not below the mount point
+    sn_stores = [s_ for s_ in g.stmts(ast.Assign) if len(s_.ast.targets) == 1 and isinstance(s_.ast.targets[0], ast.Name) and isinstance(s_.ast.value, ast.Attribute) and s_.ast.value.attr == "path"
+                 and tail(s_.ast.value.value) == f.params[0]]
+    snv = [s_.ast.targets[0].id for s_ in g.stmts(ast.Assign) if len(s_.ast.targets) == 1 and isinstance(s_.ast.targets[0], ast.Name) and isinstance(s_.ast.value, ast.Name) and s_.ast.value.id == HV]
+    SNV = next((x for x in snv if "script" in x.lower()), None)
+    if sn_stores and SNV:
+        v0 = pi[0].ast.value
+        arg0 = v0.args[0] if isinstance(v0, ast.Call) and v0.args else v0
+        rows2 = []
+        for sname, path, want in (("/app", "/app/x", "/x"), ("/app", "/app", ""), ("/app", "/app/", "/"), ("", "/x/y", "/x/y"), ("/app", "/application/x", "reject"), ("/app", "/app.bak", "reject"),
+                                  ("/app", "/apple", "reject"), ("/app", "/other", "reject"), ("/a/b", "/a/b/c", "/c"), ("/a/b", "/a/bc", "reject")):
+            outs = Explorer(f).run(sn_stores[0], {SNV: sname, f.params[0] + ".path": path}, probes={pi[0].id: ("pi", lambda ex_, env, a=arg0: ex_.ev(a, env))}, stop=lambda n: n is pi[0] and False)
+            got = set()
+            for o in outs:
+                vals = [v for nm, v in o.events if nm == "pi"]
+                if vals:
+                    got.add(vals[0] if isinstance(vals[0], str) else "?")
+                elif o.kind == "raise":
+                    got.add("reject")
+            rows2.append({"SCRIPT_NAME": sname, "path": path, "PATH_INFO": sorted(got), "required": want})
+            ctx.check("C15.R1", got == {want}, key(f, "script-name-split|%s|%s" % (sname, path)), site(f, pi[0]),
+                      "with SCRIPT_NAME %r the request path %r gives PATH_INFO %s, required %s%s" % (sname, path, sorted(got), want if want != "reject" else "a refusal (ConfigurationProblem)",
+                                                                                                   ": the path is not below the mount point, yet it is served with a PATH_INFO that does not start with '/'" if want == "reject" else ""),
+                      "-> %s" % want)
+        ctx.table("C15.R1 SCRIPT_NAME / PATH_INFO split", rows2)
     v = pi[0].ast.value
     okk = isinstance(v, ast.Call) and repo.call_target(f.module, f, v) == UTIL + ".unquote_to_wsgi_str" and isinstance(v.args[0], ast.Name)
     ctx.check("C15.R1", okk, key(f, "path-info-decoded"), site(f, pi[0]), "PATH_INFO is not the percent-decoded path (`%s`)" % norm(v), "PATH_INFO <- unquote_to_wsgi_str(path)")
-    if okk:
-        PV = v.args[0].id
-        st = [s for s in stores_to_name(f, PV) if isinstance(s.ast, ast.Assign)]
-        srcs = [norm(s.ast.value) for s in st]
-        SN = None
-        ok2 = "%s.path" % f.params[0] in srcs
-        strip = [s for s in st if isinstance(s.ast.value, ast.Subscript) and isinstance(s.ast.value.slice, ast.Slice) and isinstance(s.ast.value.slice.lower, ast.Call) and norm(s.ast.value.slice.lower.func) == "len"
-                 and s.ast.value.slice.upper is None and norm(s.ast.value.value) == PV]
-        ctx.check("C15.R1", ok2 and len(st) == 2 and len(strip) == 1, key(f, "path-info-source"), site(f), "PATH_INFO does not derive from req.path with only the SCRIPT_NAME prefix removed (%s)" % srcs,
-                  "path <- req.path[len(script_name):]")
-        if strip:
-            SN = norm(strip[0].ast.value.slice.lower.args[0])
-
-            def pref(e):
-                if isinstance(e, ast.Call) and isinstance(e.func, ast.Attribute) and e.func.attr == "startswith" and norm(e.func.value) == PV and e.args and norm(e.args[0]) == SN:
-                    return -1
-                return None
-            p, hits = guard_check(f, strip, pref)
-            ctx.check("C15.R1", p is None, key(f, "prefix-checked"), site(f, strip[0]), "the SCRIPT_NAME prefix is cut off without checking that the path starts with it", "startswith(script_name) first",
-                      path=p and g.fmt_path(p))
-            sn_store = [s for s in g.stmts(ast.Assign) if any(isinstance(t, ast.Subscript) and const(t.slice, NO) == "SCRIPT_NAME" for t in s.ast.targets)]
-            ctx.check("C15.R1", bool(sn_store) and norm(sn_store[0].ast.value) == SN, key(f, "script-name-same"), site(f), "SCRIPT_NAME in environ is not the prefix that was removed from the path", "SCRIPT_NAME <- the removed prefix")
+    # (where the decoded path comes from -- req.path minus exactly the SCRIPT_NAME segments -- is decided by the evaluated split table above)
+    sn_store = [s for s in g.stmts(ast.Assign) if any(isinstance(t, ast.Subscript) and const(t.slice, NO) == "SCRIPT_NAME" for t in s.ast.targets)]
+    ctx.check("C15.R1", bool(sn_store) and SNV is not None and norm(sn_store[0].ast.value) == SNV, key(f, "script-name-same"), site(f), "SCRIPT_NAME in environ is not the prefix that was removed from the path", "SCRIPT_NAME <- the removed prefix")
     # wsgi.url_scheme
     us = [s for s in g.stmts(ast.Assign) if any(isinstance(t, ast.Subscript) and const(t.slice, NO) == "wsgi.url_scheme" for t in s.ast.targets)]
     ctx.check("C15.R1", bool(us) and norm(us[0].ast.value) == "%s.scheme" % f.params[0], key(f, "prov|wsgi.url_scheme"), site(f), "wsgi.url_scheme is not req.scheme", "url_scheme <- req.scheme")
